@@ -207,7 +207,7 @@ def aggregate(results, left):
         cov['obligations'] += r['obligations']
         cov['proved'] += r['proved']
         cov['solver_s'] += r['solver_s']
-        cov['gen_skipped'] += r['gen_skipped']
+        cov['gen_skipped'] += r.get('gen_skipped', 0)
         cov['distinct_nontrivial'] += r['nontrivial']
         cands += r['candidates']
         inconc += r['inconclusive']
